@@ -8,6 +8,7 @@ import (
 	"runtime/debug"
 	"strconv"
 	"strings"
+	"unicode"
 	"unicode/utf8"
 
 	"golang.org/x/tools/go/ssa"
@@ -659,6 +660,11 @@ func registerMisc() {
 			panic(unsupported{"reflection-based code is not encodable: " + n})
 		}
 	}
+	I["internal/bytealg.MakeNoZero"] = func(in *Interp, th *Thread, fn *ssa.Function, args []Value, d func(Value)) (Value, bool) {
+		n := args[0].(*Term)
+		it := types.Typ[types.Int]
+		return in.makeSlice(th, types.NewSlice(types.Typ[types.Uint8]), n, n, it, it), true
+	}
 	I["internal/reflectlite.TypeOf"] = nil
 	delete(I, "internal/reflectlite.TypeOf")
 }
@@ -711,5 +717,46 @@ func registerUnique() {
 			}
 			return &StructV{[]Value{mkPtr(in.tb, c)}}, true
 		}
+	}
+}
+
+// unicode.To on a symbolic rune: the case tables are static data of the standard library; instead of
+// forking through the binary search over ~300 ranges the engine builds one ite-chain term from the
+// same table (unicode.CaseRanges of the Go release the engine is built with, which is the release
+// whose sources are executed).
+func registerUnicode() {
+	intrinsics["unicode.To"] = func(in *Interp, th *Thread, fn *ssa.Function, args []Value, d func(Value)) (Value, bool) {
+		cs, r := args[0].(*Term), args[1].(*Term)
+		if !cs.IsConst() {
+			return nil, false
+		}
+		_case := int(sext(cs.Val, 64))
+		if r.IsConst() {
+			return in.tb.Const(32, uint64(uint32(unicode.To(_case, rune(int32(r.Val)))))), true
+		}
+		if _case < 0 || _case >= unicode.MaxCase {
+			return in.tb.Const(32, uint64(unicode.ReplacementChar)), true
+		}
+		in.note("table: unicode.CaseRanges as ite-chain")
+		tb := in.tb
+		res := r
+		c32 := func(v int64) *Term { return tb.Const(32, uint64(uint32(v))) }
+		for i := len(unicode.CaseRanges) - 1; i >= 0; i-- {
+			cr := unicode.CaseRanges[i]
+			inR := tb.And(tb.BvCmp(OpSLe, c32(int64(cr.Lo)), r), tb.BvCmp(OpSLe, r, c32(int64(cr.Hi))))
+			delta := cr.Delta[_case]
+			var v *Term
+			if delta > unicode.MaxRune {
+				// UpperLower: alternating sequence starting with an upper case letter
+				off := tb.BvBin(OpSub, r, c32(int64(cr.Lo)))
+				off = tb.BvBin(OpBAnd, off, c32(^int64(1)))
+				off = tb.BvBin(OpBOr, off, c32(int64(_case&1)))
+				v = tb.BvBin(OpAdd, c32(int64(cr.Lo)), off)
+			} else {
+				v = tb.BvBin(OpAdd, r, c32(int64(delta)))
+			}
+			res = tb.Ite(inR, v, res)
+		}
+		return res, true
 	}
 }
